@@ -26,6 +26,7 @@ import RV.Base.SetList
     dedupInto      the `done` set of MulPath.eval
     negEval        NegatedPath.eval
     build          the flattening done by SequencePath.__init__ / AlternativePath.__init__
+    translate      rdflib/plugins/sparql/algebra.py translatePath on the parser's tree `Syn`
 
   Recursion of `_fwd`/`_bwd` is bounded by fuel `|nodes g| + 1`; running out of fuel clears the
   `ok` flag (theorem `path_terminates`: it never happens).
@@ -258,6 +259,45 @@ def build : Path → Path
 def buildList : List Path → List Path
   | [] => []
   | p :: ps => build p :: buildList ps
+end
+
+/-- paths whose answers the property demands to be duplicate-free: closures, possibly under `^` -/
+def Path.isClosure : Path → Bool
+  | .mul _ _ => true
+  | .inv p => p.isClosure
+  | _ => false
+
+/-! ### SPARQL front end: the parser's tree and `translatePath` -/
+
+/-- the tree rdflib's parser builds for a path (parser.py: PathAlternative, PathSequence, PathElt,
+    PathEltOrInverse, PathNegatedPropertySet with iri / InversePath members); `part` lists are never empty -/
+inductive Syn
+  | iri (p : Term)
+  | altS (x : Syn) (xs : List Syn)
+  | seqS (x : Syn) (xs : List Syn)
+  | elt (x : Syn) (m : Option Mod)
+  | invS (x : Syn)
+  | nps (fw bw : List Term)
+
+mutual
+/-- `translatePath`, applied bottom-up by `traverse(q.where, visitPost=translatePath)` -/
+def translate : Syn → Path
+  | .iri p => .iri p
+  | .altS x xs =>
+    match translateList xs with
+    | [] => translate x                          -- `len(p.part) == 1`: the part itself
+    | t :: ts => mkAlt (translate x :: t :: ts)  -- `AlternativePath(*p.part)`
+  | .seqS x xs =>
+    match translateList xs with
+    | [] => translate x
+    | t :: ts => mkSeq (translate x) (t :: ts)   -- `SequencePath(*p.part)`
+  | .elt x none => translate x                   -- `if not p.mod: return p.part`
+  | .elt x (some m) => .mul (translate x) m
+  | .invS x => .inv (translate x)
+  | .nps fw bw => .neg fw bw                     -- `NegatedPath(AlternativePath(*p.part))`
+def translateList : List Syn → List Path
+  | [] => []
+  | x :: xs => translate x :: translateList xs
 end
 
 end RV.C11
